@@ -748,6 +748,12 @@ class ModuleVistor(NodeVisitor):
             # like extract_docstring() does for docstring literals.
             # Cleaned like a docstring literal, see astutils.extract_docstring().
             obj.docstring = inspect.cleandoc(docstring).encode('utf-8', 'backslashreplace').decode('utf-8')
+            # Problems in this text are reported relative to the assigned string,
+            # not to the docstring literal (or the definition) it replaces.
+            if isinstance(expr, ast.Constant):
+                obj.docstring_lineno = extract_docstring_linenum(expr)
+            else:
+                obj.docstring_lineno = getattr(expr, 'lineno', lineno)
             # TODO: It might be better to not perform docstring parsing until
             #       we have the final docstrings for all objects.
             obj.parsed_docstring = None
